@@ -79,6 +79,7 @@ class C02(InputProp):
             fams.append(Product(["en"], G.DocSpace(3, name="g3", names=CORE, variants=["plain", "tight"]), name="docs3"))
         else:
             fams.append(Product(["en"], G.DocSpace(3, name="g3", variants=G.VARIANTS), name="docs3"))
+        fams.append(Product(["en", "de"], G.HeadingSpace(4 if tier == "quick" else 5, levels=(1, 2, 3, 4) if tier == "quick" else (1, 2, 3, 4, 5)), name="headings"))
         self.space = Concat(*fams)
 
     def describe(self, case):
